@@ -466,7 +466,19 @@ func runAclSeq(w *bufio.Writer, seqW *bufio.Writer, s AclSeq) error {
 		for _, a := range cmd {
 			sb.WriteString(" " + X(a))
 		}
-		fmt.Fprintf(&sb, " P %s M", X(shaHex(cmd[len(cmd)-1])))
+		pwArg := cmd[len(cmd)-1]
+		if strings.EqualFold(cmd[0], "hello") {
+			for k := 2; k+2 < len(cmd); k++ {
+				if strings.EqualFold(cmd[k], "auth") {
+					pwArg = cmd[k+2]
+					break
+				}
+				if strings.EqualFold(cmd[k], "setname") {
+					k++
+				}
+			}
+		}
+		fmt.Fprintf(&sb, " P %s M", X(shaHex(pwArg)))
 		m.dump(&sb)
 		fmt.Fprintf(&sb, " R %s %s %s S %s E %s D %s", r.Kind, X(payload), dk, pre, post, b01(dpre == dpost))
 		w.WriteString(sb.String())
@@ -526,6 +538,15 @@ func (g *Gen) aclCommand() []string {
 		return []string{"acl", "users"}
 	case 11:
 		return g.Pick2([][]string{{"auth"}, {"auth", "a", "b", "c"}, {"acl", "deluser"}, {"ping"}, {"echo", "x"}})
+	case 12:
+		u := g.Pick([]string{"alice", "bob", "default", "ghost"})
+		pw := g.Pick([]string{"pw", "p1", "p2", "wrong", ""})
+		pr := g.Pick([]string{"2", "3", "3", "2", "4", "x", "-1", ""})
+		return g.Pick2([][]string{{"hello"}, {"HELLO", pr}, {"hello", pr, "auth", u, pw}, {"hello", pr, "AUTH", u}, {"hello", pr, "auth"},
+			{"hello", pr, "setname", "n1"}, {"hello", pr, "setname"}, {"hello", pr, "setname", "n", "auth"}, {"hello", pr, "auth", u, pw, "setname", "n2"},
+			{"hello", pr, "setname", "n", "auth", u, pw}, {"hello", pr, "foo", "bar"}, {"hello", pr, "auth", u, pw, "setname"},
+			{"hello", pr, "setname", "a", "setname", "b", "x"}, {"hello", pr, "auth", u, pw, "foo", "bar"}, {"hello", pr, "setname", "n", u},
+			{"hello", pr, "auth", u, pw, "auth", u}})
 	default:
 		return g.Pick2([][]string{{"get", "a1"}, {"get", "b1"}, {"set", "a1", "v"}, {"set", "b1", "v"}, {"mget", "a1", "b1"}, {"mset", "a1", "1", "b1", "2"},
 			{"del", "a1", "b1"}, {"rename", "a1", "b1"}, {"publish", "c1", "m"}, {"publish", "d1", "m"}, {"pubsub", "numsub", "c1", "d1"}, {"pubsub", "channels"},
